@@ -14,7 +14,7 @@ CFG = {
     "coq_dirs": ["C13"],
     "n": {"quick": 2400, "thorough": 150000},
     "shard": 150,
-    "max_report": 8,
+    "max_report": 4,
     "level": "proof",
     "rule": ("34% rt: a random Go type (nesting <= 4 of reflect.StructOf/PtrTo/SliceOf/ArrayOf/MapOf[string|int*|uint*|float*]/FuncOf "
              "incl. variadic and (T, error), interface{}, all numeric kinds, string, bool, *big.Int, time.Time, hand-written structs with "
